@@ -3,8 +3,13 @@
 
   Property theorems only (helper lemmas: Props/Lemmas/C17_Serial.lean, C17_Async.lean).
   Every statement is for *all* command lists (single string, expanded maps, `run:` lists,
-  nested serial sub-lists), *all* scripted exit codes / outputs and, for the concurrent steps,
-  *all* completion schedules (arbitrary lists of lane indices, not only permutations).
+  nested serial sub-lists), *all* scripted outcomes — exit status over `Int` (0, positive exit
+  codes, **negative = killed by a signal**) or "cannot be started at all" (the spawn call raises) —
+  all outputs and, for the concurrent steps, *all* completion schedules (arbitrary lists of lane
+  indices, not only permutations).
+
+  "Zero" always means `= (0 : Int)`; a loop stops at the first command whose status is `≠ 0`
+  (not "`> 0`") or that cannot be started.
 -/
 import PypyrModel.Cmd
 import Props.Lemmas.C17_Serial
@@ -15,67 +20,90 @@ open Pypyr.Cmd
 
 /-! ## cmd / shell -/
 
-/-- The step succeeds iff every declared command exits 0. -/
+/-- The step succeeds iff every declared command can be started and exits 0. -/
 theorem serial_ok_iff_all_zero (cs : List SCommand) :
-    (runSerial cs).err = none ↔ ∀ d ∈ declsOf cs, d.proc.code = 0 := by
-  simp only [runSerial, runCommands_closed]
-  exact firstFailD_none_iff _
+    (runSerial cs).err = none ↔ ∀ d ∈ declsOf cs, d.proc.spawn = none ∧ d.proc.code = 0 := by
+  simp only [runSerial, runCommands_closed, firstFailD_none_iff, stops_false_iff]
 
-example : (runSerial [⟨[⟨1, 0, "a", ""⟩, ⟨2, 0, "", ""⟩], true, true⟩, ⟨[⟨3, 0, "", ""⟩], false, false⟩]).err = none ∧
-    (runSerial [⟨[⟨1, 0, "a", ""⟩, ⟨2, 3, "", ""⟩], true, true⟩, ⟨[⟨3, 0, "", ""⟩], false, false⟩]).err = some ⟨2, 3⟩ := by
+example : (runSerial [⟨[⟨1, none, 0, "a", ""⟩, ⟨2, none, 0, "", ""⟩], true, true⟩, ⟨[⟨3, none, 0, "", ""⟩], false, false⟩]).err = none ∧
+    (runSerial [⟨[⟨1, none, 0, "a", ""⟩, ⟨2, none, 3, "", ""⟩], true, true⟩, ⟨[⟨3, none, 0, "", ""⟩], false, false⟩]).err = some (.exit 2 3) ∧
+    (runSerial [⟨[⟨1, none, 0, "a", ""⟩, ⟨2, none, -9, "", ""⟩], true, true⟩, ⟨[⟨3, none, 0, "", ""⟩], false, false⟩]).err = some (.exit 2 (-9)) ∧
+    (runSerial [⟨[⟨1, none, 0, "a", ""⟩, ⟨2, some .notFound, 0, "", ""⟩], true, true⟩, ⟨[⟨3, none, 0, "", ""⟩], false, false⟩]).err
+      = some (.spawn 2 .notFound) := by
   decide +kernel
 
-/-- The commands run are a prefix of the declaration; they are *started in that order*; every one of
-    them but the last exited 0; the step fails exactly when the last one run exited non-zero, the
-    error carries that command and that code, and nothing after it was started. -/
+/-- The commands run (`pre`: a process existed for each) are a prefix of the declaration, *started in
+    that order*. Then exactly one of:
+    * no error: nothing is left and every one exited 0;
+    * a `CalledProcessError`: the last one run exited non-zero — **positive or negative** —, all before
+      it exited 0, the error carries that command and that status;
+    * a spawn error: every one run exited 0, the *next* declared command could not be started and the
+      error is its.
+    In the last two cases nothing after the failing command was started (`started` is exactly `pre`). -/
 theorem serial_started_is_prefix (cs : List SCommand) :
     ∃ pre rest, declsOf cs = pre ++ rest ∧ (runSerial cs).started = pre.map (·.proc.id) ∧
+      (∀ d ∈ pre, d.proc.spawn = none) ∧
       match (runSerial cs).err with
       | none => rest = [] ∧ ∀ d ∈ pre, d.proc.code = 0
-      | some e => ∃ init d, pre = init ++ [d] ∧ (∀ x ∈ init, x.proc.code = 0) ∧
-          d.proc.code ≠ 0 ∧ e = ⟨d.proc.id, d.proc.code⟩ := by
-  obtain ⟨rest, h1, h2⟩ := takeThroughD_split (declsOf cs)
-  refine ⟨takeThroughD (declsOf cs), rest, h1, ?_, ?_⟩
+      | some (.exit i c) => ∃ init d, pre = init ++ [d] ∧ (∀ x ∈ init, x.proc.code = 0) ∧
+          d.proc.code ≠ 0 ∧ i = d.proc.id ∧ c = d.proc.code
+      | some (.spawn i k) => (∀ d ∈ pre, d.proc.code = 0) ∧
+          ∃ d rest', rest = d :: rest' ∧ d.proc.spawn = some k ∧ i = d.proc.id := by
+  obtain ⟨rest, h1, h2, h3⟩ := ranD_split (declsOf cs)
+  refine ⟨ranD (declsOf cs), rest, h1, ?_, h2, ?_⟩
   · simp [runSerial, runCommands_closed]
   · simp only [runSerial, runCommands_closed]
-    cases hf : firstFailD (declsOf cs) <;> (rw [hf] at h2; exact h2)
+    exact h3
 
-example : (runSerial [⟨[⟨1, 0, "", ""⟩, ⟨2, 1, "", ""⟩, ⟨3, 0, "", ""⟩], false, false⟩, ⟨[⟨4, 0, "", ""⟩], false, false⟩]).started
-    = [1, 2] := by decide +kernel
+example : (runSerial [⟨[⟨1, none, 0, "", ""⟩, ⟨2, none, 1, "", ""⟩, ⟨3, none, 0, "", ""⟩], false, false⟩, ⟨[⟨4, none, 0, "", ""⟩], false, false⟩]).started
+    = [1, 2] ∧
+  (runSerial [⟨[⟨1, none, 0, "", ""⟩, ⟨2, none, -15, "", ""⟩, ⟨3, none, 0, "", ""⟩], false, false⟩, ⟨[⟨4, none, 0, "", ""⟩], false, false⟩]).started
+    = [1, 2] ∧
+  (runSerial [⟨[⟨1, none, 0, "", ""⟩, ⟨2, some .permission, 0, "", ""⟩, ⟨3, none, 0, "", ""⟩], false, false⟩, ⟨[⟨4, none, 0, "", ""⟩], false, false⟩]).started
+    = [1] := by decide +kernel
 
-/-- "Succeeds iff every command it *ran* exited 0", on the commands actually run. -/
+/-- "Succeeds iff every command it *ran* exited 0", on the commands actually attempted (the
+    declaration prefix through the first one that stops the loop): the step succeeds iff each of them
+    could be started and exited 0. -/
 theorem serial_ok_iff_all_run_zero (cs : List SCommand) :
-    (runSerial cs).err = none ↔ ∀ d ∈ takeThroughD (declsOf cs), d.proc.code = 0 := by
+    (runSerial cs).err = none ↔
+      ∀ d ∈ takeThroughD (declsOf cs), d.proc.spawn = none ∧ d.proc.code = 0 := by
   obtain ⟨rest, _, h2⟩ := takeThroughD_split (declsOf cs)
   simp only [runSerial, runCommands_closed]
   cases hf : firstFailD (declsOf cs) with
   | none =>
     rw [hf] at h2
-    replace h2 : rest = [] ∧ ∀ d ∈ takeThroughD (declsOf cs), d.proc.code = 0 := h2
-    exact ⟨fun _ => h2.2, fun _ => rfl⟩
+    replace h2 : rest = [] ∧ ∀ d ∈ takeThroughD (declsOf cs), d.proc.stops = false := h2
+    exact ⟨fun _ d hd => (stops_false_iff _).mp (h2.2 d hd), fun _ => rfl⟩
   | some e =>
     rw [hf] at h2
     obtain ⟨init, d, h3, _, h5, _⟩ := h2
     simp only [reduceCtorEq, false_iff]
     intro hall
-    exact h5 (hall d (by simp [h3]))
+    have := (stops_false_iff _).mpr (hall d (by simp [h3]))
+    simp [h5] at this
+
+example : ∃ d ∈ takeThroughD (declsOf [⟨[⟨1, none, 0, "", ""⟩, ⟨2, none, -9, "", ""⟩, ⟨3, none, 0, "", ""⟩], false, false⟩]),
+    d.proc.code ≠ 0 := ⟨⟨⟨2, none, -9, "", ""⟩, false, false⟩, by decide +kernel, by decide⟩
 
 /-- With `save`, `cmdOut` holds one result per command actually run whose command has `save`,
-    in declaration order, the failed one included (it is appended before the return-code check);
-    one result is stored as the object itself, several as a list, none leaves `cmdOut` untouched. -/
+    in declaration order, the failed one included (it is appended before the return-code check) —
+    for every outcome sequence: a non-zero exit of either sign, or a later command that cannot be
+    started, loses none of the results of the commands that did run. One result is stored as the
+    object itself, several as a list, none leaves `cmdOut` untouched. -/
 theorem serial_cmdOut (cs : List SCommand) :
     ∃ pre rest, declsOf cs = pre ++ rest ∧ (runSerial cs).started = pre.map (·.proc.id) ∧
       (runSerial cs).results = (pre.filter (·.save)).map (fun d => mkResultSync d.text d.proc) ∧
       (runSerial cs).cmdOut = cmdOutOf (runSerial cs).results := by
-  obtain ⟨rest, h1, _⟩ := takeThroughD_split (declsOf cs)
-  exact ⟨takeThroughD (declsOf cs), rest, h1, by simp [runSerial, runCommands_closed],
-    by simp [runSerial, runCommands_closed, resultsOfD], rfl⟩
+  obtain ⟨rest, h1, _⟩ := ranD_split (declsOf cs)
+  refine ⟨ranD (declsOf cs), rest, h1, by simp [runSerial, runCommands_closed], ?_, rfl⟩
+  simp only [runSerial, runCommands_closed, resultsOfD, ranD, List.filter_filter]
 
 /-- When every command has `save`: exactly one result per started command, same order, carrying
-    that command's exit code. -/
+    that command's exit status. -/
 theorem serial_cmdOut_all_save (cs : List SCommand) (hs : ∀ c ∈ cs, c.save = true) :
     (runSerial cs).results.map (·.id) = (runSerial cs).started ∧
-    (runSerial cs).results.map (·.code) = (takeThroughD (declsOf cs)).map (·.proc.code) := by
+    (runSerial cs).results.map (·.code) = (ranD (declsOf cs)).map (·.proc.code) := by
   have hall : ∀ d ∈ declsOf cs, d.save = true := by
     induction cs with
     | nil => simp [declsOf]
@@ -91,8 +119,11 @@ theorem serial_cmdOut_all_save (cs : List SCommand) (hs : ∀ c ∈ cs, c.save =
     apply hall
     rw [h1]
     simp [hd]
-  have hfil : (takeThroughD (declsOf cs)).filter (·.save) = takeThroughD (declsOf cs) :=
-    List.filter_eq_self.mpr hpre
+  have hfil : (takeThroughD (declsOf cs)).filter (fun d => d.save && d.proc.ran) = ranD (declsOf cs) := by
+    unfold ranD
+    apply List.filter_congr
+    intro d hd
+    simp [hpre d hd]
   constructor
   · simp only [runSerial, runCommands_closed, resultsOfD, hfil, List.map_map]
     apply List.map_congr_left
@@ -105,8 +136,17 @@ theorem serial_cmdOut_all_save (cs : List SCommand) (hs : ∀ c ∈ cs, c.save =
     simp only [Function.comp, mkResultSync]
     split <;> rfl
 
-example : (runSerial [⟨[⟨1, 0, "x\n", ""⟩, ⟨2, 1, "", "boom \n"⟩, ⟨3, 0, "", ""⟩], true, true⟩]).cmdOut
-    = .many [⟨1, 0, .text "x", .text ""⟩, ⟨2, 1, .text "", .text "boom"⟩] := by decide +kernel
+example : (runSerial [⟨[⟨1, none, 0, "x\n", ""⟩, ⟨2, none, 1, "", "boom \n"⟩, ⟨3, none, 0, "", ""⟩], true, true⟩]).cmdOut
+    = .many [⟨1, 0, .text "x", .text ""⟩, ⟨2, 1, .text "", .text "boom"⟩] ∧
+  -- killed by SIGKILL: the result with code -9 is there, nothing after it ran
+  (runSerial [⟨[⟨1, none, 0, "x\n", ""⟩, ⟨2, none, -9, "", ""⟩, ⟨3, none, 0, "", ""⟩], true, true⟩]).cmdOut
+    = .many [⟨1, 0, .text "x", .text ""⟩, ⟨2, -9, .text "", .text ""⟩] ∧
+  -- the 2nd cannot be started: the result of the 1st is kept
+  (runSerial [⟨[⟨1, none, 0, "x\n", ""⟩, ⟨2, some .notFound, 0, "", ""⟩, ⟨3, none, 0, "", ""⟩], true, true⟩]).cmdOut
+    = .single ⟨1, 0, .text "x", .text ""⟩ ∧
+  (runSerial [⟨[⟨1, none, 0, "A", ""⟩], true, true⟩, ⟨[⟨2, none, 0, "B", ""⟩, ⟨3, some .notFound, 0, "", ""⟩, ⟨4, none, 0, "", ""⟩], true, true⟩,
+              ⟨[⟨5, none, 0, "", ""⟩], false, false⟩]).cmdOut
+    = .many [⟨1, 0, .text "A", .text ""⟩, ⟨2, 0, .text "B", .text ""⟩] := by decide +kernel
 
 /-! ## cmds / shells -/
 
@@ -118,27 +158,62 @@ theorem async_results_order_independent (cs : List ACommand) (s₁ s₂ : List N
     (runAsync cs s₁).started = (runAsync cs s₂).started := by
   simp [runAsync, final_lanes]
 
-/-- … and they are in declaration order: flattened, `cmdOut` is the results of the `save` lanes in
-    the order the lanes are declared, each lane contributing one result per process it ran, in
-    sub-list order. `cmdOut` is set iff some command has `save`. -/
+/-- … and they are in declaration order: flattened, `cmdOut` is the items of the `save` lanes in
+    the order the lanes are declared, each lane contributing one item per instruction it attempted, in
+    sub-list order (the exception object for the one that could not be started, as the code does);
+    the `SubprocessResult`s among them are exactly one per process that existed, in that order.
+    `cmdOut` is set iff some command has `save`. -/
 theorem async_cmdOut_declaration_order (cs : List ACommand) (s : List Nat) :
     match (runAsync cs s).cmdOut with
     | none => cs.any (·.save) = false
     | some slots => cs.any (·.save) = true ∧
+        slotItems slots = ((alanesOf cs).filter (·.save)).flatMap ALane.items ∧
         slotResults slots = ((alanesOf cs).filter (·.save)).flatMap ALane.results := by
   simp only [runAsync, final_lanes]
   cases h : cs.any (·.save)
   · simp
   · simp only [if_true]
-    exact ⟨trivial, (collect_final cs).1⟩
+    refine ⟨trivial, (collect_final cs).1, ?_⟩
+    simp only [slotResults, (collect_final cs).1, itemResults_flatMap]
+    exact congrArg (fun f => List.flatMap f _) (funext fun l => (ALane.results_eq l).symm)
+
+/-- When every command has `save`: `cmdOut` holds exactly one `SubprocessResult` per process that
+    existed, in declaration order (lane by lane, sub-list order inside a lane). -/
+theorem async_cmdOut_one_result_per_process (cs : List ACommand) (s : List Nat)
+    (hs : ∀ c ∈ cs, c.save = true) :
+    match (runAsync cs s).cmdOut with
+    | none => cs = []
+    | some slots => (slotResults slots).map (·.id) = (runAsync cs s).started := by
+  have h := async_cmdOut_declaration_order cs s
+  cases hc : (runAsync cs s).cmdOut with
+  | none =>
+    rw [hc] at h
+    cases cs with
+    | nil => rfl
+    | cons c cs => simp [hs c (by simp)] at h
+  | some slots =>
+    rw [hc] at h
+    obtain ⟨_, _, h3⟩ := h
+    have hall : ∀ l ∈ alanesOf cs, l.save = true := alanes_all_save cs hs
+    have hfil : (alanesOf cs).filter (·.save) = alanesOf cs := List.filter_eq_self.mpr hall
+    simp only [h3, hfil, runAsync, final_lanes, List.map_map]
+    rw [← alanesOf_procs, List.map_map, List.map_flatMap, List.flatten_eq_flatMap, List.flatMap_map]
+    refine congrArg (fun f => List.flatMap f _) (funext fun l => ?_)
+    simp only [Function.comp, laneStarted_final, ALane.results, List.map_map]
+    apply List.map_congr_left
+    intro p _
+    simp only [Function.comp, mkResultAsync]
+    split <;> try split
+    all_goals rfl
 
 /-- Every top-level entry is started before any process has been waited for (the trace of every
-    schedule begins with the start of the first process of each lane), and ends up among the started. -/
+    schedule begins with the start of the first process of each lane that can be started), and ends
+    up among the started. -/
 theorem async_all_started (cs : List ACommand) (s : List Nat) :
     (∃ rest, (runAsync cs s).trace = startEvents (lanesOf cs) ++ rest) ∧
-    ∀ ps ∈ lanesOf cs, ∀ p, ps.head? = some p → p.id ∈ (runAsync cs s).started := by
+    ∀ ps ∈ lanesOf cs, ∀ p, ps.head? = some p → p.spawn = none → p.id ∈ (runAsync cs s).started := by
   refine ⟨⟨_, by simp only [runAsync, List.append_assoc]; rfl⟩, ?_⟩
-  intro ps hps p hp
+  intro ps hps p hp hsp
   simp only [runAsync, final_lanes, List.mem_flatten, List.mem_map]
   refine ⟨laneStarted (finalLane ps), ⟨finalLane ps, ⟨ps, hps, rfl⟩, rfl⟩, ?_⟩
   cases ps with
@@ -146,87 +221,138 @@ theorem async_all_started (cs : List ACommand) (s : List Nat) :
   | cons q qs =>
     simp only [List.head?_cons, Option.some.injEq] at hp
     subst hp
-    by_cases h : q.code ≠ 0 <;> simp [laneStarted, finalLane, takeThrough, h]
+    rw [laneStarted_final]
+    by_cases h : q.stops = true <;> simp [takeThrough, h, Proc.ran, hsp]
 
-/-- A serial sub-list stops at its first non-zero exit: the processes started are, lane by lane,
-    the prefix of the lane up to and including its first non-zero exit. -/
+/-- `startEvents` really is "the first instruction of every lane, when it can be started". -/
+theorem startEvents_spec (ls : List (List Proc)) :
+    startEvents ls = ls.flatMap (fun ps => match ps.head? with
+      | some p => if p.spawn = none then [Event.start p.id] else []
+      | none => []) := by
+  induction ls with
+  | nil => rfl
+  | cons ps ls ih =>
+    simp only [startEvents, List.flatMap_cons, ih]
+    congr 1
+    cases ps with
+    | nil => rfl
+    | cons p ps => cases hp : p.spawn <;> simp [launchEvents, hp]
+
+/-- A serial sub-list stops at its first non-zero exit (positive or negative) or unstartable command:
+    the processes started are, lane by lane, the startable ones of the prefix of the lane up to and
+    including the first instruction that stops it. -/
 theorem async_sublist_prefix (cs : List ACommand) (s : List Nat) :
-    (runAsync cs s).started = (lanesOf cs).flatMap (fun ps => (takeThrough ps).map (·.id)) := by
+    (runAsync cs s).started = (lanesOf cs).flatMap (fun ps => (ranP ps).map (·.id)) := by
   simp only [runAsync, final_lanes, List.map_map]
   rw [List.flatMap_def]
   congr 1
   apply List.map_congr_left
   intro ps _
-  simp [laneStarted, finalLane]
+  simp [laneStarted_final, ranP]
 
-/-- `takeThrough` is what its name says. -/
+/-- `takeThrough` is what its name says: a prefix of the lane; every instruction in it but the last
+    could be started and exited 0; either it is the whole lane and that holds of the last one too, or
+    the last one has a non-zero status (`≠ 0` over `Int`: a signal counts) or could not be started. -/
 theorem takeThrough_spec (ps : List Proc) :
     ∃ rest, ps = takeThrough ps ++ rest ∧
-      ((rest = [] ∧ ∀ p ∈ takeThrough ps, p.code = 0) ∨
-       ∃ init p, takeThrough ps = init ++ [p] ∧ (∀ x ∈ init, x.code = 0) ∧ p.code ≠ 0) := by
-  induction ps with
-  | nil => exact ⟨[], rfl, .inl ⟨rfl, by simp [takeThrough]⟩⟩
-  | cons p ps ih =>
-    obtain ⟨rest, h1, h2⟩ := ih
-    by_cases hc : p.code ≠ 0
-    · exact ⟨ps, by simp [takeThrough, hc], .inr ⟨[], p, by simp [takeThrough, hc], by simp, hc⟩⟩
-    · have hz : p.code = 0 := by omega
-      refine ⟨rest, ?_, ?_⟩
-      · simp only [takeThrough, if_neg hc, List.cons_append]
-        rw [← h1]
-      · simp only [takeThrough, if_neg hc]
-        cases h2 with
-        | inl h => exact .inl ⟨h.1, by
-            intro x hx
-            cases hx with
-            | head => exact hz
-            | tail _ hx => exact h.2 x hx⟩
-        | inr h =>
-          obtain ⟨init, q, h3, h4, h5⟩ := h
-          refine .inr ⟨p :: init, q, by simp [h3], ?_, h5⟩
-          intro x hx
-          cases hx with
-          | head => exact hz
-          | tail _ hx => exact h4 x hx
+      ((rest = [] ∧ ∀ p ∈ takeThrough ps, p.spawn = none ∧ p.code = 0) ∨
+       ∃ init p, takeThrough ps = init ++ [p] ∧ (∀ x ∈ init, x.spawn = none ∧ x.code = 0) ∧
+         (p.spawn ≠ none ∨ p.code ≠ 0)) := by
+  obtain ⟨rest, h1, h2⟩ := takeThrough_split ps
+  refine ⟨rest, h1, ?_⟩
+  cases h2 with
+  | inl h => exact .inl ⟨h.1, fun p hp => (stops_false_iff p).mp (h.2 p hp)⟩
+  | inr h =>
+    obtain ⟨init, p, h3, h4, h5⟩ := h
+    exact .inr ⟨init, p, h3, fun x hx => (stops_false_iff x).mp (h4 x hx), (stops_true_iff p).mp h5⟩
 
-/-- One aggregate error lists every failure: the errors are exactly the processes run that exited
-    non-zero (with command and code), in declaration order; the step succeeds iff there is none. -/
+/-- … and the processes that existed (`ranP`) are that prefix without a final unstartable one. -/
+theorem ranP_spec (ps : List Proc) :
+    (∀ p ∈ ranP ps, p.spawn = none) ∧
+    (ranP ps = takeThrough ps ∨ ∃ q, q.spawn ≠ none ∧ takeThrough ps = ranP ps ++ [q]) := by
+  refine ⟨fun p hp => ?_, ?_⟩
+  · simp only [ranP, List.mem_filter] at hp
+    exact (ran_iff p).mp hp.2
+  · obtain ⟨rest, _, h2⟩ := takeThrough_split ps
+    have hfil : ∀ {l : List Proc}, (∀ x ∈ l, x.stops = false) → l.filter Proc.ran = l :=
+      fun h => List.filter_eq_self.mpr (fun x hx => ran_of_not_stops (h x hx))
+    cases h2 with
+    | inl h => exact .inl (hfil h.2)
+    | inr h =>
+      obtain ⟨init, p, h3, h4, h5⟩ := h
+      cases hsp : p.spawn with
+      | none =>
+        refine .inl ?_
+        unfold ranP
+        rw [h3, List.filter_append, hfil h4]
+        simp [Proc.ran, hsp]
+      | some k =>
+        refine .inr ⟨p, by simp [hsp], ?_⟩
+        unfold ranP
+        rw [h3, List.filter_append, hfil h4]
+        simp [Proc.ran, hsp]
+
+example :
+    takeThrough [⟨1, none, 0, "", ""⟩, ⟨2, none, -15, "", ""⟩, ⟨3, none, 0, "", ""⟩]
+      = [⟨1, none, 0, "", ""⟩, ⟨2, none, -15, "", ""⟩] ∧
+    ranP [⟨1, none, 0, "", ""⟩, ⟨2, some .badArgs, 0, "", ""⟩, ⟨3, none, 0, "", ""⟩] = [⟨1, none, 0, "", ""⟩] ∧
+    takeThrough [⟨1, none, 0, "", ""⟩, ⟨2, some .badArgs, 0, "", ""⟩, ⟨3, none, 0, "", ""⟩]
+      = [⟨1, none, 0, "", ""⟩, ⟨2, some .badArgs, 0, "", ""⟩] ∧
+    startEvents [[⟨1, some .notFound, 0, "", ""⟩], [⟨2, none, 0, "", ""⟩, ⟨3, none, 0, "", ""⟩]] = [.start 2] := by
+  decide +kernel
+
+/-- One aggregate error lists every failure: the errors are exactly the instructions attempted that
+    exited non-zero (`SubprocessError` with command and code) or could not be started (their own
+    exception), in declaration order. -/
 theorem async_error_lists_all_failures (cs : List ACommand) (s : List Nat) :
     (runAsync cs s).errors =
-      (((lanesOf cs).flatMap takeThrough).filter (fun p => p.code ≠ 0)).map (fun p => ⟨p.id, p.code⟩) := by
+      (((lanesOf cs).flatMap takeThrough).filter Proc.stops).map Proc.error := by
   simp only [runAsync, final_lanes]
   rw [(collect_final cs).2, ← alanesOf_procs]
   simp only [List.flatMap_map, List.filter_flatMap, List.map_flatMap]
   refine congrArg (fun f => List.flatMap f _) (funext fun l => ?_)
-  simp only [ALane.errors, ALane.results, List.filter_map, List.map_map]
-  have : ((fun r : Result => decide (r.code ≠ 0)) ∘ mkResultAsync l.save l.text)
-      = (fun p : Proc => decide (p.code ≠ 0)) := by
-    funext p
-    simp only [Function.comp, mkResultAsync]
-    split <;> try split
-    all_goals rfl
-  rw [this]
-  apply List.map_congr_left
-  intro p _
-  simp only [Function.comp, toErr, mkResultAsync]
-  split <;> try split
-  all_goals rfl
+  exact ALane.errors_eq l
 
+/-- The step succeeds iff every instruction attempted could be started and exited 0. -/
 theorem async_ok_iff_all_run_zero (cs : List ACommand) (s : List Nat) :
-    (runAsync cs s).errors = [] ↔ ∀ p ∈ (lanesOf cs).flatMap takeThrough, p.code = 0 := by
+    (runAsync cs s).errors = [] ↔
+      ∀ p ∈ (lanesOf cs).flatMap takeThrough, p.spawn = none ∧ p.code = 0 := by
   rw [async_error_lists_all_failures]
-  simp [List.filter_eq_nil_iff]
+  simp only [List.map_eq_nil_iff, List.filter_eq_nil_iff]
+  constructor
+  · intro h p hp
+    exact (stops_false_iff p).mp (by simpa using h p hp)
+  · intro h p hp
+    simp [(stops_false_iff p).mpr (h p hp)]
 
 /-- three lanes: `a`, the sub-list `[b (exit 1), c]`, `d (exit 3)`; schedule "d, a, b" and its reverse. -/
 example :
-    let cs : List ACommand := [⟨.many [.one ⟨1, 0, "a", ""⟩, .serial [⟨2, 1, "", "e"⟩, ⟨3, 0, "", ""⟩]], true, true⟩,
-                               ⟨.single ⟨4, 3, "", ""⟩, false, false⟩]
-    (runAsync cs [2, 0, 1]).errors = [⟨2, 1⟩, ⟨4, 3⟩] ∧
+    let cs : List ACommand := [⟨.many [.one ⟨1, none, 0, "a", ""⟩, .serial [⟨2, none, 1, "", "e"⟩, ⟨3, none, 0, "", ""⟩]], true, true⟩,
+                               ⟨.single ⟨4, none, 3, "", ""⟩, false, false⟩]
+    (runAsync cs [2, 0, 1]).errors = [.exit 2 1, .exit 4 3] ∧
     (runAsync cs [2, 0, 1]).started = [1, 2, 4] ∧
     (runAsync cs [2, 0, 1]).trace = [.start 1, .start 2, .start 4, .fin 4, .fin 1, .fin 2] ∧
     (runAsync cs [1, 0, 2]).trace = [.start 1, .start 2, .start 4, .fin 2, .fin 1, .fin 4] ∧
     (runAsync cs [2, 0, 1]).cmdOut = (runAsync cs [1, 0, 2]).cmdOut ∧
-    (runAsync cs []).cmdOut = some [.res ⟨1, 0, .text "a", .bytes ""⟩, .sub [⟨2, 1, .bytes "", .text "e"⟩]] := by
+    (runAsync cs []).cmdOut = some [.one (.res ⟨1, 0, .text "a", .bytes ""⟩), .sub [.res ⟨2, 1, .bytes "", .text "e"⟩]] := by
+  decide +kernel
+
+/-- signals and spawn errors: lane 0 `a`; lane 1 the sub-list `[b, c (SIGKILL), d]`; lane 2 the sub-list
+    `[e, f (not found), g]`; lane 3 `h` (not executable). `d` and `g` are never started; the aggregate
+    error lists c, f, h in declaration order; `cmdOut` has one result for each of a, b, c, e. -/
+example :
+    let cs : List ACommand := [⟨.many [.one ⟨1, none, 0, "a", ""⟩,
+                                       .serial [⟨2, none, 0, "b", ""⟩, ⟨3, none, -9, "", ""⟩, ⟨4, none, 0, "", ""⟩],
+                                       .serial [⟨5, none, 0, "e", ""⟩, ⟨6, some .notFound, 0, "", ""⟩, ⟨7, none, 0, "", ""⟩],
+                                       .one ⟨8, some .permission, 0, "", ""⟩], true, true⟩]
+    (runAsync cs [2, 1, 0, 1]).errors = [.exit 3 (-9), .spawn 6 .notFound, .spawn 8 .permission] ∧
+    (runAsync cs [2, 1, 0, 1]).started = [1, 2, 3, 5] ∧
+    (runAsync cs [2, 1, 0, 1]).trace = [.start 1, .start 2, .start 5, .fin 5, .fin 2, .start 3, .fin 1, .fin 3] ∧
+    (runAsync cs []).cmdOut = some [.one (.res ⟨1, 0, .text "a", .bytes ""⟩),
+                                    .sub [.res ⟨2, 0, .text "b", .bytes ""⟩, .res ⟨3, -9, .bytes "", .bytes ""⟩],
+                                    .sub [.res ⟨5, 0, .text "e", .bytes ""⟩, .exc 6 .notFound],
+                                    .one (.exc 8 .permission)] ∧
+    (match (runAsync cs []).cmdOut with | some ss => (slotResults ss).map (·.id) | none => []) = [1, 2, 3, 5] := by
   decide +kernel
 
 end Pypyr.C17
